@@ -397,7 +397,10 @@ class Interp(object):
                 if F == 0 and not (1 <= X <= 9 or X == 31):
                     self.items_skipped = getattr(self, 'items_skipped', 0) + 1
                     continue
-                if F != 0:
+                # "the following YYY descriptors": an operator that only changes how later elements are read (201, 202,
+                # 207, 208) is one descriptor and takes one place in the span; what a replication, a sequence or an operator
+                # that produces data takes is not settled
+                if F != 0 and not (F == 2 and X in (1, 2, 7, 8)):
                     self.ambiguous.append('221 covers a non-element descriptor %06d' % d)
             if self.newref_bits and F == 0:
                 if d not in self.B:
